@@ -2,6 +2,7 @@ import RdpModel.Wire.Global
 import RdpModel.Wire.Mcs
 import RdpModel.Spec.Activation
 import RdpModel.Spec.Input
+import RdpModel.Spec.FastPath
 import Driver.C13
 namespace Rdp.Driver
 open Rdp Rdp.Global Rdp.Spec
@@ -103,6 +104,17 @@ def oracleSteps (uid : Nat) : RState → Nat → List String → List String →
   | s, sid, h :: hs, op :: ops, m :: ms, acc =>
     let sentOf := fun (x : String) => ((x.splitOn "[").getD 1 "").dropEnd 1 |>.toString
     if h = "X" then oracleSteps uid s sid hs ops ms ("E[][]" :: acc)
+    else if h = "FP" then
+      -- a fast-path PDU with any mixture of updates: inside the window the callbacks must be
+      -- exactly the rectangles the reference decoder finds, in wire order
+      if s = .active then
+        let body := match op.splitOn ":" with | [_, hx] => ofHex hx | _ => none
+        match body.bind (fun b => Spec.FastPath.decodePdu (b.length + 1) b) with
+        | some rects =>
+          let evs := rects.map fun r => showEv ⟨r.left, r.top, r.right, r.bottom, r.width, r.height, r.bpp, r.flags % 2 = 1, r.data⟩
+          oracleSteps uid s sid hs ops ms (("ok[][" ++ "|".intercalate evs ++ "]") :: acc)
+        | none => oracleSteps uid s sid hs ops ms ("*[][*]" :: acc)
+      else oracleSteps uid s sid hs ops ms ("*[][]" :: acc)
     else if h = "I" ∨ h = "J" then
       if s = .active then
         let evs := if op.startsWith "T" then (op.drop 1).toString else op
